@@ -14,23 +14,25 @@ Section Pipeline.
   Notation texec := (texec X has_pre skip has_post proc).
 
   (* submit, then (unless submit failed) the executor, then the collection *)
-  Definition run_task (x d : X) : tstate X :=
-    let st1 := texec submit_prog (mkTS x d false d false [] TRunning) in
-    match ts_status st1 with
-    | TFailed => st1
-    | _ => texec collect_prog (tresume X (texec exec_prog (tresume X st1)))
+  Definition run_task (x d : X) : tres X :=
+    match texec submit_prog (mkTS x d false d false []) with
+    | RFail st => RFail st
+    | RRun st1 | RRet st1 =>
+        match texec exec_prog st1 with
+        | RFail st => RFail st
+        | RRun st2 | RRet st2 => texec collect_prog st2
+        end
     end.
 
   Definition pre_runs : bool := has_pre && negb skip.
 
   Theorem task_pipeline : forall x d,
-    let st := run_task x d in
     let x1 := if pre_runs then fst (proc TPre x) else x in
     let pre_call := if pre_runs then [(TPre, x)] else [] in
     if pre_runs && snd (proc TPre x) then
-      ts_status st = TFailed /\ ts_calls st = [(TPre, x)]
+      exists st, run_task x d = RFail st /\ ts_calls st = [(TPre, x)]
     else
-      ts_status st = TReturned /\ ts_in st = x1 /\
+      exists st, run_task x d = RRet st /\ ts_in st = x1 /\
       if snd (proc TAction x1) then
         ts_err st = true /\ ts_out st = fst (proc TAction x1) /\ ts_calls st = pre_call ++ [(TAction, x1)]
       else if has_post then
@@ -40,13 +42,11 @@ Section Pipeline.
       else
         ts_out st = fst (proc TAction x1) /\ ts_err st = false /\ ts_calls st = pre_call ++ [(TAction, x1)].
   Proof.
-    intros x d. unfold run_task, pre_runs, Model.StateTask.texec, submit_prog, exec_prog, collect_prog.
-    destruct has_pre, skip; cbn;
-      try (destruct (proc TPre x) as [x1 [|]] eqn:Ep; cbn; [auto|]);
-      match goal with |- context [proc TAction ?z] => destruct (proc TAction z) as [y [|]] eqn:Ea end; cbn;
-      try rewrite Ea; cbn; try (repeat split; reflexivity);
-      destruct has_post; cbn; try (repeat split; reflexivity);
-      destruct (proc TPost y) as [y' [|]] eqn:Eq; cbn; repeat split; reflexivity.
+    intros x d. unfold run_task, pre_runs.
+    destruct has_pre, skip, has_post; lazy;
+      repeat match goal with
+             | |- context [proc ?p ?a] => destruct (proc p a) as [? [|]]; lazy
+             end; eexists; repeat split; reflexivity.
   Qed.
 End Pipeline.
 
